@@ -103,14 +103,15 @@ def check(repo: Repo, rep: Report) -> None:
                 r = compare_norm(p_, lambda x: isinstance(x, ast.BinOp) and isinstance(x.op, ast.Sub))
                 if r and r[0] == ">=" and isinstance(r[1], ast.Name):
                     sub_ = p_.left if isinstance(p_.left, ast.BinOp) else p_.comparators[0]
-                    if isinstance(sub_.right, ast.Name):
-                        last_var = sub_.right.id
+                    if cell_name(sub_.right) and isinstance(sub_.right, (ast.Name, ast.Subscript)):
+                        last_var = cell_name(sub_.right)
                         incl = True
             for p_ in parts:
-                if last_var and u(p_) in (f"not {last_var}", f"{last_var} is None"):
+                from ..rules import uc
+                if last_var and uc(p_) in (f"not {last_var}", f"{last_var} is None"):
                     first = True
             ok = incl and first
-    rec = [s for s in sites(tf) if last_var and isinstance(s.node, ast.Assign) and u(s.node.targets[0]) == last_var and isinstance(s.node.value, ast.Name)]
+    rec = [s for s in sites(tf) if last_var and isinstance(s.node, ast.Assign) and cell_name(s.node.targets[0]) == last_var and isinstance(s.node.value, ast.Name)]
     rep.ob("R3-throttle-first", tf, "emit iff first or now - last >= duration", ok,
            "throttle_first does not emit exactly when at least the window duration has passed since the last emitted element")
     rep.ob("R3-throttle-first", tf, "last emission time recorded in the deciding branch", bool(rec) and bool(dec) and rec[0].ctx.branch == dec[0].ctx.branch,
